@@ -142,6 +142,7 @@ structure ObjShape where
   oldDeleting : Bool      -- old object has metadata.deletionTimestamp
   newDeleting : Bool      -- new object has metadata.deletionTimestamp
   finalizers : Bool       -- new object has finalizers
+  oldFinalizers : Bool    -- old object has finalizers (finalizer removal: old yes, new no)
   statusOnly : Bool       -- the update changes status only
 deriving DecidableEq, Repr
 
